@@ -19,7 +19,7 @@ LEVEL_TEXT = ("Seeded exploration; pDESy's PERT values are compared with an inde
               "regime (waiting makes the critical path grow) the fixture test never reaches.")
 LEVEL_NOTE = "Trusted: the 25-line reference CPM in this module; sampling evidence only."
 PROBES = ["updates_checked", "cpl_grew_while_waiting", "multi_tail", "multi_head", "finished_task_in_network", "extra_update_calls",
-          "zero_remaining_task"]
+          "zero_remaining_task", "backward_prelude"]
 
 
 def budget(tier):
@@ -34,7 +34,19 @@ def gen(rng, tier):
         focus["proj_abs"] = True
     spec = C.forward_spec(rng, tier, focus)
     spec["extra_t"] = [rng.randint(0, 30) for _ in range(2)]
+    if rng.random() < 0.2:
+        for t in spec["model"]["tasks"]:
+            if rng.random() < 0.7:
+                t["due"] = rng.randint(0, 12)
+        spec["prelude"] = {"due": rng.random() < 0.8, "reverse": rng.random() < 0.5}
     return spec
+
+
+def extra_candidates(spec):
+    if spec.get("prelude") is not None:
+        c = dict(spec)
+        c.pop("prelude")
+        yield c
 
 
 def close(a, b):
@@ -86,8 +98,26 @@ def compare(res, st, T, cpl, time, label):
 
 
 def run(spec):
-    tr = C.run_forward(spec, snap_phases=("updated", "recorded"))
+    if spec.get("prelude") is None:
+        tr = C.run_forward(spec, snap_phases=("updated", "recorded"))
+    else:
+        # history: backward_simulate first (helper tasks for due times are added and must be gone again), then the
+        # forward run whose PERT updates are compared with the reference CPM over the *given* network
+        from .. import build as B
+        scen.setup_run(spec.get("seed", 0))
+        tr = scen.Trace()
+        tr.model, tr.cfg = spec["model"], spec["cfg"]
+        tr.built = B.build(spec["model"], spec.get("ranks"))
+        tr.project = tr.built.project
+        tr.absence = set(spec["cfg"].get("absence", []))
+        scen.simulate(tr.project, spec["cfg"], want_snap=False, backward=spec["prelude"])
+        tr.rec, tr.out = scen.simulate(tr.project, spec["cfg"], snap_phases=("updated", "recorded"))
+        tr.ix = tr.rec.ix
+        tr.history = None
+        tr.log_offset = 0
     res = C.base_result(tr)
+    if spec.get("prelude") is not None:
+        res.count("backward_prelude")
     st = Static(tr.model)
     if any(k != G.FS for (_, _, k) in tr.model["deps"]):
         return C.finish(res, tr)
